@@ -501,6 +501,14 @@ func splitTop(s string) []string {
 // zz_contracts_verif.go per package directory, same relative path as in the repository); the copy
 // committed in the repository behind build tag verif is compared with it and differences are noted.
 func (cs *Contracts) LoadAll(repo string, verif string, specDir string) error {
+	// library specs first: their axioms may be used by lemmas in the contract files
+	specs, _ := filepath.Glob(filepath.Join(specDir, "*.spec"))
+	sort.Strings(specs)
+	for _, f := range specs {
+		if err := cs.LoadFile(f, ""); err != nil {
+			return err
+		}
+	}
 	root := filepath.Join(verif, "contracts")
 	var files []string
 	filepath.Walk(root, func(path string, info os.FileInfo, err error) error {
@@ -526,13 +534,6 @@ func (cs *Contracts) LoadAll(repo string, verif string, specDir string) error {
 			cs.Notes = append(cs.Notes, fmt.Sprintf("contract file %s is missing in the repository; mirror used", filepath.Join(rel, "zz_contracts_verif.go")))
 		case string(a) != string(b):
 			cs.Notes = append(cs.Notes, fmt.Sprintf("contract file %s in the repository differs from the mirror; mirror used", filepath.Join(rel, "zz_contracts_verif.go")))
-		}
-	}
-	specs, _ := filepath.Glob(filepath.Join(specDir, "*.spec"))
-	sort.Strings(specs)
-	for _, f := range specs {
-		if err := cs.LoadFile(f, ""); err != nil {
-			return err
 		}
 	}
 	return nil
